@@ -343,6 +343,22 @@ def findBackend : List HHost → Str → Str → Option HPath
     | some p => some p
     | none => findBackend hs ns pfx
 
+/-- Go's `<=` on hostnames (byte-wise; ASCII names: the lexicographic order of the characters) -/
+def hostLe (a b : HHost) : Bool := decide (a.hostname ≤ b.hostname)
+
+/-- since 58bb97c `findBackend` does not range over the map `Hosts().Items()` itself: it collects the
+hostnames, `sort.Strings` them and looks each host up in that order -/
+def insertHost (h : HHost) : List HHost → List HHost
+  | [] => [h]
+  | x :: xs => if hostLe h x then h :: x :: xs else x :: insertHost h xs
+
+/-- (`sort.Strings` + lookup; an insertion sort here: structurally recursive, kernel-evaluable) -/
+def sortHosts (hosts : List HHost) : List HHost := hosts.foldr insertHost []
+
+/-- `updater.findBackend` on the map whose entries are `hosts` (listed in any order) -/
+def findBackendSorted (hosts : List HHost) (ns pfx : Str) : Option HPath :=
+  findBackend (sortHosts hosts) ns pfx
+
 /-- SEEDED VARIANT (C09e, not the code): the host with the protected path's hostname is looked at
 first, WITHOUT the namespace comparison; the guarded loop is only the fallback -/
 def findBackendSeeded (hosts : List HHost) (ns hostname pfx : Str) : Option HPath :=
